@@ -417,8 +417,111 @@ func traceGolden(o opts) error {
 		emit("golden\tname=%s\tstate=%s\twant=%s\tnext=%s\twantnext=%s\tpure=%s", e.Name(), state, meta.State, next, strings.Join(wparts, ","), pure)
 		os.RemoveAll(work)
 	}
+	if err := craftedV1(o); err != nil {
+		return err
+	}
 	if err := bigDB(o); err != nil {
 		return err
+	}
+	return nil
+}
+
+// writeV1 seals a clear persist document the documented schema-v1 way, independently of
+// package db: a fresh data key wrapped by the KEK (associated data "setec DEK v1"), the document
+// encrypted under it (associated data "setec database v1"), both in the JSON wrapper.
+func writeV1(path string, kek tink.AEAD, clear []byte) error {
+	h, err := keyset.NewHandle(aead.AES256GCMKeyTemplate())
+	if err != nil {
+		return err
+	}
+	var dek bytes.Buffer
+	if err := h.WriteWithAssociatedData(keyset.NewBinaryWriter(&dek), kek, []byte("setec DEK v1")); err != nil {
+		return err
+	}
+	c, err := aead.New(h)
+	if err != nil {
+		return err
+	}
+	ct, err := c.Encrypt(clear, []byte("setec database v1"))
+	if err != nil {
+		return err
+	}
+	bs, err := json.Marshal(v1Wrapped{Version: 1, DEK: dek.Bytes(), DB: ct})
+	if err != nil {
+		return err
+	}
+	return os.WriteFile(path, bs, 0600)
+}
+
+// craftedV1: database files in the documented layout that no short history of puts reaches -
+// version numbers in the upper half of the 32-bit range, a secret with a single high version,
+// many versions with holes.  Same observations as for the committed files.
+func craftedV1(o opts) error {
+	type cs struct {
+		name, clear, want string
+		next            map[string]uint32
+	}
+	cases := []cs{
+		{"high-versions",
+			`{"Secrets":{"big":{"Versions":{"2147483647":"YQ==","2147483648":"Yg==","4294967290":"Yw=="},"ActiveVersion":2147483648,"LatestVersion":4294967290},"small":{"Versions":{"1":"eA=="},"ActiveVersion":1,"LatestVersion":1}}}`,
+			"626967=2147483647:61,2147483648:62,4294967290:63@2147483648;736d616c6c=1:78@1",
+			map[string]uint32{"big": 4294967291, "small": 2}},
+		{"single-high",
+			`{"Secrets":{"k":{"Versions":{"3000000000":""},"ActiveVersion":3000000000,"LatestVersion":3000000007}}}`,
+			"6b=3000000000:@3000000000",
+			map[string]uint32{"k": 3000000008}},
+		{"holes",
+			`{"Secrets":{"h":{"Versions":{"2":"Mg==","5":"NQ==","40":"NDA="},"ActiveVersion":5,"LatestVersion":41}}}`,
+			"68=2:32,5:35,40:3430@5",
+			map[string]uint32{"h": 42}},
+	}
+	for _, c := range cases {
+		work := filepath.Join(o.dir, "crafted-"+c.name)
+		os.MkdirAll(work, 0700)
+		kek, err := newKEK()
+		if err != nil {
+			return err
+		}
+		p := filepath.Join(work, "setec.db")
+		if err := writeV1(p, kek, []byte(c.clear)); err != nil {
+			return err
+		}
+		orig, _ := os.ReadFile(p)
+		sk := &sink{observer: true}
+		state, next, pure := "OPENERR", "", "0"
+		var ns []string
+		for n := range c.next {
+			ns = append(ns, n)
+		}
+		sort.Strings(ns)
+		d, err := db.Open(p, kek, audit.New(sk))
+		if err == nil {
+			after, _ := os.ReadFile(p)
+			pure = b01(bytes.Equal(after, orig))
+			state = memState(d, sk)
+			var parts []string
+			for _, n := range ns {
+				v, err := d.Put(superuser(), n, []byte("\x01golden-probe\x02"))
+				if err != nil {
+					parts = append(parts, hx(n)+":ERR")
+				} else {
+					parts = append(parts, fmt.Sprintf("%s:%d", hx(n), v))
+				}
+			}
+			next = strings.Join(parts, ",")
+			// ... and what that put wrote opens again
+			if _, err := db.Open(p, kek, audit.New(&sink{observer: true})); err != nil {
+				state = "REOPENERR:" + hx(err.Error())
+			}
+		} else {
+			state = "OPENERR:" + hx(err.Error())
+		}
+		var wparts []string
+		for _, n := range ns {
+			wparts = append(wparts, fmt.Sprintf("%s:%d", hx(n), c.next[n]))
+		}
+		emit("golden\tname=crafted-%s\tstate=%s\twant=%s\tnext=%s\twantnext=%s\tpure=%s", c.name, state, c.want, next, strings.Join(wparts, ","), pure)
+		os.RemoveAll(work)
 	}
 	return nil
 }
